@@ -203,6 +203,13 @@ pub fn lipsum(
     let html: Option<bool> = kwargs.get("html")?;
     let html = html.unwrap_or(false);
     let n = n.or(n_kwargs).unwrap_or(5);
+    // the text grows with n * max words; keep sizes chosen by the template sane
+    if n > 10_000 || max > 10_000 {
+        return Err(Error::new(
+            minijinja::ErrorKind::InvalidOperation,
+            "lipsum text would be too large",
+        ));
+    }
     let mut rv = String::new();
 
     let rng = crate::rand::XorShiftRng::for_state(state);
